@@ -160,7 +160,10 @@ def main():
         return g
 
     for h in hostile:
-        comps_bad = any(reserved_component(c) or c in (".", "..") for c in h.split("/")) or h == ""
+        def path_bad(p_):
+            # what the storage does with a path: strip("/"), split("/"); every component must be a safe one
+            sp = p_.strip("/")
+            return bool(sp) and any(reserved_component(c) or c in (".", "..") for c in sp.split("/"))
         single_bad = reserved_component(h) or h in (".", "..")
         cal_col = lambda: next(iter(st.discover("/user/cal/")))
 
@@ -184,10 +187,10 @@ def main():
         attempt("upload(%r)" % h, with_lock(lambda: (cal_col().upload(h, mk("u9")), "uploaded")[1]), h, single_bad)
         attempt("delete(%r)" % h, with_lock(lambda: (cal_col().delete(h), "deleted")[1]), h, single_bad and h != "")
         attempt("move(->%r)" % h, with_lock(move), h, single_bad)
-        attempt("discover(%r)" % ("user/cal/" + h), with_lock(discover("user/cal/" + h)), h, comps_bad and h != "")
-        attempt("discover(%r)" % h, with_lock(discover(h)), h, comps_bad and h not in ("", "/"))
+        attempt("discover(%r)" % ("user/cal/" + h), with_lock(discover("user/cal/" + h)), h, path_bad("user/cal/" + h))
+        attempt("discover(%r)" % h, with_lock(discover(h)), h, path_bad(h))
         attempt("create_collection(%r)" % ("user/" + h), with_lock(lambda: (st.create_collection("user/" + h), "created")[1]), h,
-                comps_bad and h not in ("", "/"))
+                path_bad("user/" + h))
         attempt("sync(%r)" % h, with_lock(lambda: (cal_col().sync("http://radicale.org/ns/sync/" + h), "synced")[1]), h, True)
         # restore the two items for the next round
         with st.acquire_lock("w", "user"):
